@@ -18,7 +18,8 @@ Rec == ndJsonDeserialize(IOEnv.TRACE)
 VARIABLES k, l
 vars == <<pat, cands, pool, lb, k, l>>
 
-Usable(r) == r.op = "reduce" /\ "hist" \in DOMAIN r.out /\ Judged(r.in.p) /\ CompileOk(r.in.p)
+Usable(r) == /\ r.op = "reduce" /\ "hist" \in DOMAIN r.out /\ Judged(r.in.p) /\ CompileOk(r.in.p)
+             /\ ~LongRun(r.in.p) /\ \A i \in 1..Len(r.in.pool) : ~LongRun(r.in.pool[i])     \* C01's domain
 Steps == Rec[k].in.steps
 Tag == IF lb = 0 THEN "lb0" ELSE "lb96"
 
